@@ -138,6 +138,7 @@ class VirtualMachine:
     def readline(self) -> None:
         """Read a line from standard input."""
         self.input_buffer = sys.stdin.readline().rstrip("\n")
+        self.input_pos = 0
 
     def warn(self, msg: str, loc) -> None:
         """Print a warning message."""
